@@ -132,6 +132,12 @@ WriteFault(left) ==
   /\ Finish("failed", "write")
   /\ UNCHANGED <<v1, orig, cfg, loaded>> /\ Tick("WriteFault")
 
+\* a file is already lying at the target path: the migration of this swamp is refused
+Refuse ==
+  /\ phase \in {"loading", "writing"} /\ v2.ex
+  /\ Finish("failed", "write")
+  /\ UNCHANGED <<v1, v2, orig, cfg, loaded>> /\ Tick("Refuse")
+
 Verify ==
   /\ phase = "verifying" /\ ~v2.bad
   /\ IF "StaleTargetAppend" \in Dev THEN \A k \in Keys : loaded[k] # Absent => v2.recs[k] # Absent   \* (keys only)
@@ -156,7 +162,7 @@ Next ==
   \/ \E k \in Keys : DeleteShadow(k) \/ DeleteReal(k)
   \/ \E i \in 1..3 : DamageChunk(i)
   \/ \E c \in [verify : BOOLEAN, deleteOld : BOOLEAN] : Start(c)
-  \/ Load \/ LoadFault \/ Write \/ (\E b \in BOOLEAN : WriteFault(b)) \/ Verify \/ VerifyFault
+  \/ Load \/ LoadFault \/ Refuse \/ Write \/ (\E b \in BOOLEAN : WriteFault(b)) \/ Verify \/ VerifyFault
   \/ \E a \in BOOLEAN : Delete(a)
 Spec == Init /\ [][Next]_vars
 Bounded == ops <= MaxOps
